@@ -41,3 +41,38 @@ Example dm1_over_broadcast_instance :
   evb (steps 10 (net_send (net0 A B 1000) 0 254 202 (dm1_priority p) 32 p)) = [OCb 7 7 65226 32 p] /\
   dm1_parse p = Some ([1; 0; 4; 2], dtcs).
 Proof. vm_compute. split; reflexivity. Qed.
+
+(* ---------------------------------------------------------------- the same on the J1939-22 layer *)
+From J1939 Require Import Model22.
+From J1939.gen Require Import Tp22Gen.
+From J1939P Require Import MpgProofs Net22 Net22Proofs Net22Bam.
+
+(* a DM1 with 15 or more trouble codes (more than 60 bytes: an FD broadcast) reaches every listener of the other FD node as one
+   payload that parses back to exactly the lamp states and the codes; the broadcast session number is back in the pool *)
+Theorem dm1_over_fd_broadcast_end_to_end pl awl rsl mil dtcs sa t0 A0 B0 :
+  lamp_state pl -> lamp_state awl -> lamp_state rsl -> lamp_state mil -> Forall dtc_ok dtcs ->
+  15 <= Z.of_nat (length dtcs) < 4194303 -> 0 <= sa < 255 -> 0 < t0 ->
+  0 < f_bam_iv A0 < tp22_T1 -> 2 * f_bam_iv A0 < tp22_T1 ->
+  f_snd A0 = [] /\ f_rcv A0 = [] /\ f_mpg A0 = [] /\ n_timers (base A0) = [] /\ f_bam A0 = repeat true tp22_pool_bam ->
+  f_snd B0 = [] /\ f_rcv B0 = [] /\ f_mpg B0 = [] /\ n_timers (base B0) = [] ->
+  let p := dm1_build pl awl rsl mil dtcs in
+  dm1_priority p = 7 /\
+  exists j, let s := steps22 j (net22_send (net22_0 A0 B0 t0) 0 254 202 (dm1_priority p) sa p) in
+    pa s = [] /\ pb s = [] /\ f_snd (fa s) = [] /\ f_rcv (fa s) = [] /\ f_snd (fb s) = [] /\ f_rcv (fb s) = [] /\
+    f_bam (fa s) = repeat true tp22_pool_bam /\
+    evb2 s = deliveries (base B0) 7 65226 sa addr_GLOBAL p /\
+    dm1_parse p = Some ([pl; awl; rsl; mil], dtcs).
+Proof.
+  intros Hpl Hawl Hrsl Hmil Hok Hn Hsa Ht0 Hiv Hiv2 HA HB p.
+  assert (Hne : dtcs <> []) by (destruct dtcs; [cbn in Hn; lia|discriminate]).
+  destruct (dm1_roundtrip pl awl rsl mil dtcs Hpl Hawl Hrsl Hmil Hne Hok) as (Hparse & Hlen).
+  fold p in Hparse, Hlen.
+  assert (Hlp : 60 < len p < 16777216).
+  { unfold len. rewrite Hlen. rewrite Nat2Z.inj_add, Nat2Z.inj_mul. change (Z.of_nat 2) with 2. change (Z.of_nat 4) with 4. lia. }
+  assert (Hprio : dm1_priority p = 7).
+  { unfold dm1_priority. unfold len in Hlp. destruct (Z.of_nat (length p) >? 8) eqn:E; [reflexivity|lia]. }
+  split; [exact Hprio|]. rewrite Hprio.
+  destruct (bam_closed_loop22_delivers_any 7 sa 0 254 202 p t0 A0 B0 ltac:(lia) Hsa ltac:(right; lia) ltac:(lia) Hlp Ht0 Hiv Hiv2 HA HB)
+    as (j & Q1 & Q2 & Q3 & Q4 & Q5 & Q6 & Q7 & Q8 & _).
+  exists j. cbv zeta. repeat split; try assumption.
+Qed.
